@@ -145,3 +145,15 @@ LEVEL_NOTE = ("Trusted: Coq kernel, genir's shape matching, the hand-written str
               "byte-identical output are observed per corpus request, not proved.")
 TECHNIQUE = "Coq proof over a generator model + translator (emitted Go -> IR) with kernel-checked equality + extracted-spec/emitted-code differential run"
 DESIGN_REF = "DESIGN.md section 6, C15"
+
+# ---- L0b: kernel-checked agreement of the arithmetic this property's model restates with the
+# ---- Go source (coq/Gen/GoArith2.v is regenerated by gotrans on every run; see docs/gotrans.md)
+import l0_common as _l0
+COQ_TARGETS = list(COQ_TARGETS) + _l0.COQ_TARGETS2_BY_OWNER["C15"]
+EXTRA_OBLIGATIONS = list(globals().get("EXTRA_OBLIGATIONS", [])) + _l0.EXTRA_OBLIGATIONS2_BY_OWNER["C15"]
+_l0_prev_generate = globals().get("generate")
+
+
+def generate(res):
+    notes = list(_l0_prev_generate(res) or []) if (_l0_prev_generate and _l0_prev_generate is not _l0.generate) else []
+    return notes + list(_l0.generate(res) or [])
